@@ -112,6 +112,8 @@ func processActiveProposal(ctx sdk.Context, k keeper.Keeper, proposal types.Prop
 		} else {
 			proposal.Status = types.StatusFailed
 			tagValue = govTypes.AttributeValueProposalFailed
+			// a claim whose payout failed pays nothing: its lock is undone like that of a rejected claim
+			updateAbstain(ctx, k, proposal)
 		}
 	} else {
 		proposal.Status = types.StatusRejected
